@@ -164,6 +164,11 @@ def step(toks, ann):
             return 'ok ' + hx(decode_huffman(data))
         except Exception as e:
             return canon(e)
+    if op == 'hrt':
+        try:
+            return 'ok ' + hx(decode_huffman(huff_coder().encode(unhex(toks[1]))))
+        except Exception as e:
+            return canon(e)
     if op == 'utf8':
         try:
             unhex(toks[1]).decode('utf-8'); return '1'
